@@ -549,38 +549,45 @@ def rule_free(ctx: Ctx) -> List[Ob]:
                   for b in ast.walk(rets[0].value)) or "Z.dot(dHat)" in src(rets[0].value)
     obs.append(ob("FREE", "the step enters the result only through the free-variable selection Z", g, rets[0] if rets else g.node, okz,
                   f"returns {short(rets[0].value) if rets else '?'}", construct="Z @ dHat"))
-    # Z built from free_vars
-    zname = src(fret.ast.value.elts[1]).split(".")[0]
-    zsrc = []
-    # the returned matrix may be a converted / renamed copy of the one that is filled: follow `a = b`, `a = b.tocsc()`
-    znames, work = {zname}, [zname]
-    while work:
-        cur_ = work.pop()
+    # Z built from free_vars, A from active_vars
+    def built_from(idx, want, avoid):
+        zname = src(fret.ast.value.elts[idx]).split(".")[0]
+        zsrc = []
+        # the returned matrix may be a converted / renamed copy of the one that is filled: follow `a = b`, `a = b.tocsc()`
+        znames, work = {zname}, [zname]
+        while work:
+            cur_ = work.pop()
+            for st_ in walk_no_nested(f.node):
+                if isinstance(st_, (ast.Assign, ast.AnnAssign)) and getattr(st_, "value", None) is not None:
+                    t_ = st_.targets[0] if isinstance(st_, ast.Assign) else st_.target
+                    if src(t_) != cur_:
+                        continue
+                    v_ = st_.value
+                    if isinstance(v_, ast.Call) and isinstance(v_.func, ast.Attribute) and v_.func.attr in ("tocsc", "tocsr", "tocoo", "copy") and not v_.args:
+                        v_ = v_.func.value
+                    if isinstance(v_, ast.Name) and v_.id not in znames:
+                        znames.add(v_.id)
+                        work.append(v_.id)
         for st_ in walk_no_nested(f.node):
             if isinstance(st_, (ast.Assign, ast.AnnAssign)) and getattr(st_, "value", None) is not None:
                 t_ = st_.targets[0] if isinstance(st_, ast.Assign) else st_.target
-                if src(t_) != cur_:
-                    continue
                 v_ = st_.value
                 if isinstance(v_, ast.Call) and isinstance(v_.func, ast.Attribute) and v_.func.attr in ("tocsc", "tocsr", "tocoo", "copy") and not v_.args:
                     v_ = v_.func.value
-                if isinstance(v_, ast.Name) and v_.id not in znames:
-                    znames.add(v_.id)
-                    work.append(v_.id)
-    for st_ in walk_no_nested(f.node):
-        if isinstance(st_, (ast.Assign, ast.AnnAssign)) and getattr(st_, "value", None) is not None:
-            t_ = st_.targets[0] if isinstance(st_, ast.Assign) else st_.target
-            v_ = st_.value
-            if isinstance(v_, ast.Call) and isinstance(v_.func, ast.Attribute) and v_.func.attr in ("tocsc", "tocsr", "tocoo", "copy") and not v_.args:
-                v_ = v_.func.value
-            if src(t_) in znames and not (isinstance(v_, ast.Call) and dotted(v_.func) == "lil_matrix") and \
-                    not (isinstance(v_, ast.Name) and v_.id in znames):
-                zsrc.append(src(st_.value))
-            if isinstance(t_, ast.Subscript) and src(t_.value) in znames:
-                zsrc.append(src(t_.slice))
-    okzz = bool(zsrc) and all("free_vars" in z and "active_vars" not in z for z in zsrc)
+                if src(t_) in znames and not (isinstance(v_, ast.Call) and dotted(v_.func) == "lil_matrix") and \
+                        not (isinstance(v_, ast.Name) and v_.id in znames):
+                    zsrc.append(src(st_.value))
+                if isinstance(t_, ast.Subscript) and src(t_.value) in znames:
+                    zsrc.append(src(t_.slice))
+        return zname, zsrc, bool(zsrc) and all(want in z and avoid not in z for z in zsrc)
+
+    zname, zsrc, okzz = built_from(1, "free_vars", "active_vars")
     obs.append(ob("FREE", "selection matrix Z has its unit entries on the free variables", f, fret.ast, okzz,
                   f"{zname} is built from: {zsrc}", construct="Z[free_vars, arange] = 1"))
+    if len(fret.ast.value.elts) >= 3:
+        aname, asrc, okaa = built_from(2, "active_vars", "free_vars")
+        obs.append(ob("FREE", "selection matrix A has its unit entries on the active variables", f, fret.ast, okaa,
+                      f"{aname} is built from: {asrc}", construct="A[active_vars, arange] = 1"))
     return obs
 
 
